@@ -240,6 +240,18 @@ def gen_setop(w, r, pure=False):
             items = args.pop()
             items = items or _elem_pool(w, r, P, field, 2)
             args.append({"items": items, "raise_after": r.randrange(0, len(items) + 1)})
+            earlier = [x for a in args[:-1] if isinstance(a, list) for x in a if isinstance(x, str)]
+            if earlier and field == "blocks" and r.random() < 0.6:
+                # ... and afterwards an element of an EARLIER argument is edited (whoever owns it now)
+                w.queue.append({"op": "setattr", "label": earlier[r.randrange(len(earlier))], "attr": r.choice(["offset", "size"]), "value": r.randrange(0, 12)})
+                if w.cfg.get("lookup_mode") is not None:
+                    # index profiles: the destination is looked up before (index built) and after
+                    lk = {"op": "lookup", "scope": P, "method": "byte_blocks_on_offset", "q": [0, 40, 1]}
+                    w.queue.append(dict(lk))
+                    op["args"] = args
+                    op["style"] = r.choice(["list", "tuple", "iter"])
+                    w.queue.insert(0, op)
+                    return lk
         op["args"] = args
         op["style"] = r.choice(["list", "tuple", "iter"])
     elif meth in ("ior", "ixor", "isub", "iand") and r.random() < w.cfg.get("p_wrapper_arg", 0.2):
